@@ -194,7 +194,9 @@ CLAIMS.update({
              "(the model of all of par_sort.rs mutates only by swaps, enforced by its type), cancelled or not; a flag raised before the start returns 'cancelled' with the slice "
              "untouched; the worker's comparison decides every pair of distinct matches, hence two sorted permutations of the same matches are equal (thread-count independence). "
              "The heapsort fallback's loop ranges are translated from the source and proved to cover every parent node and every position. "
-             "Partial: 'non-decreasing order' and 'not cancelled when the flag is never raised' are not theorems; they are evaluated on the real output of every case, and the model "
+             "A sort whose cancel flag is never raised never reports 'cancelled' (C18_not_cancelled: every comparison function and input; the model's recurse was "
+             "split into recurseLoop / recursePivot / recurseSplit for this). The model's own sort of the match list (insertion by the worker's comparison) is a sorted permutation "
+             "(Lemmas/MatchSort). Partial: 'non-decreasing order' of the pattern-defeating quicksort itself is not a theorem; it is evaluated on the real output of every case, and the model "
              "reproduces the real final slice exactly (including the order of ties, break_patterns, heapsort fallback and cancel points) for 1/2/8/16 threads, on killer-adversary "
              "inputs that reach the fallback, and for each private building block called directly.",
         note="Trusted: Lean kernel, axioms propext/Classical.choice/Quot.sound (Lean's `for`/partial loop combinators are opaque definitions, not axioms), translator (pdqsort thresholds), "
